@@ -648,14 +648,20 @@ impl Type {
                     || match idl_store.struct_lookup(ident) {
                         Some((r#struct, path)) => {
                             let mut fields = Vec::new();
-                            let mut size = 0;
+                            let mut size = 0usize;
                             for field in &r#struct.fields {
                                 let (ty, count) = &field.val;
                                 let field = StructField {
                                     ident: field.ident.clone(),
                                     val: (Self::new(ty, idl_store), *count),
                                 };
-                                size += field.size();
+                                // (see StructField::size: an overflow is an error in the input)
+                                size = size.checked_add(field.size()).unwrap_or_else(|| {
+                                    panic!(
+                                        "struct `{}` is too large: its size does not fit the address space",
+                                        r#struct.ident
+                                    )
+                                });
                                 fields.push(field);
                             }
                             Self::Struct(Struct::new(
